@@ -48,6 +48,8 @@ def obligations(tier, ctx):
         pre = ["0 <= idsel <= 3", "0 <= bodysel <= 2"] + (["100 <= status <= 599", "status != 200", "status != 202"] if mode == 4 else [])
         obs.append(Ob(name=f"request_mode{mode}", params=params, pre=pre, call=f"H.request_mode({mode}, {'status' if mode == 4 else 200}, idsel, bodysel, noise)",
                       backend="P", timeout=200, family="(c) one terminal message per request"))
+    obs.append(Ob(name="after_ended", params=[("end", "int"), ("idsel", "int"), ("status", "int"), ("second", "int")], pre=["0 <= end <= 4", "0 <= idsel <= 3", "status in (400, 404, 500, 503, 204, 301)", "0 <= second <= 1"],
+                  call="H.after_ended(end, idsel, status, second)", backend="P", timeout=400, family="(c) after a request has ended (answered, failed, timed out), its id reappears on the event stream"))
     obs.append(Ob(name="notification", params=[("status", "int"), ("raises", "bool")], pre=["100 <= status <= 599"], call="H.notification_post(status, raises)", backend="P", timeout=120, family="(c) notifications"))
     for m in (0, 1):
         obs.append(Ob(name=f"cleanup_{m}", params=[("x", "int")], pre=["x == 0"], call=f"H.cleanup({m})", backend="P", timeout=60, family="leaving the context releases tasks, stream and clients"))
